@@ -73,9 +73,26 @@ struct C04 : Scenario {
         }
         if (mode == "relax" && r.chance(0.25)) p.setd("z1", std::round(r.uniform(0.15, 0.3) * 100) / 100);
         if (mode == "relax" && c.currents.size() == 1 && r.chance(0.25)) { p.seti("boxstart", 1); p.setd("boxw", std::round(r.uniform(0.8, 2.5) * 100) / 100); p.setd("boxh", std::round(r.uniform(0.8, 2.5) * 100) / 100); }
+        // off-centre starts (a Gaussian of the start width written to a start file, displaced in position and energy): the sizes
+        // are those about the bunch's own centre, whatever dipole motion the history leaves
+        if (c.currents.size() == 1 && !p.geti("boxstart", 0) && r.chance(0.25)) {
+            double z = mode == "relax" ? p.getd("z1") : c.zoom;
+            double room = std::min(1.5, 5.3 - 4.5 * z);
+            if (room > 0.3) { double a = r.uniform(0.3, room), ph = r.uniform(0, 2 * M_PI); p.setd("offq", a * std::cos(ph)); p.setd("offp", a * std::sin(ph)); }
+        }
         c.to_plan(p);
         p.setu("entropy", r.u64());
         return p;
+    }
+
+    // Gaussian of width z centred on (q0,p0), as a start file
+    static bool write_gauss(const Derived& d, unsigned n, double z, double q0, double p0, const std::string& file) {
+        std::vector<float> data((size_t)n * n);
+        for (unsigned x = 0; x < n; x++) for (unsigned y = 0; y < n; y++) {
+            double q = d.qmin + x * (double)d.delta_q - q0, pp = d.pmin + y * (double)d.delta_p - p0;
+            data[(size_t)x * n + y] = (float)std::exp(-(q * q + pp * pp) / (2 * z * z));
+        }
+        return h5_write_f32(file, "/PhaseSpace/data", {1, n, n}, data);
     }
 
     static HistSet run_one(Outcome& o, const Cfg& c, RunCtx& rc, const std::string& tag, uint64_t entropy) {
@@ -135,6 +152,11 @@ struct C04 : Scenario {
                 b.startfile = "box.h5"; b.zoom = 1;
                 o.probe("reach.compact_start_file");
             }
+            if (plan.has("offq")) {
+                if (!write_gauss(d, (unsigned)cfg.grid, a.zoom, plan.getd("offq"), plan.getd("offp"), rc.workdir + "/offa.h5")) { o.set_infra("cannot write start file"); return o; }
+                a.startfile = "offa.h5";
+                o.probe("reach.off_centre_start");
+            }
             if (a.zoom <= 0.3) o.probe("reach.start_with_exact_zero_columns");
             HistSet hsa = run_one(o, a, rc, "a", entropy); if (!hsa.ok) return o;
             HistSet hsb = run_one(o, b, rc, "b", entropy); if (!hsb.ok) return o;
@@ -192,6 +214,11 @@ struct C04 : Scenario {
             return o;
         }
         Cfg c = cfg; c.output = "v.h5";
+        if (plan.has("offq")) {
+            if (!write_gauss(d, (unsigned)cfg.grid, c.zoom, plan.getd("offq"), plan.getd("offp"), rc.workdir + "/offv.h5")) { o.set_infra("cannot write start file"); return o; }
+            c.startfile = "offv.h5";
+            o.probe("reach.off_centre_start");
+        }
         HistSet hs = run_one(o, c, rc, "v", entropy); if (!hs.ok) return o;
         if (hs.b.size() > 1) o.probe("reach.multibunch");
         for (size_t bi = 0; bi < hs.b.size() && o.fails.empty(); bi++) {
@@ -227,6 +254,7 @@ struct C04 : Scenario {
         with([](Cfg& d) { d.interp = 4; });
         with([](Cfg& d) { double f = 1e-3; for (double x : d.currents) if (x > 0) { f = x; break; } d.currents = {f}; });
         if (p.geti("boxstart", 0)) { Plan q = p; q.erase("boxstart"); out.push_back(q); }
+        if (p.has("offq")) { Plan q = p; q.erase("offq"); q.erase("offp"); out.push_back(q); }
         return out;
     }
 };
